@@ -13,7 +13,7 @@ from . import common
 from .common import fhex, fvec, fvecs, cbool, copt, col
 
 HEADER = """From Coq Require Import List Bool ZArith PrimFloat.
-From HV Require Import Num FloatIO Integrators Sampler SamplerCorr.
+From HV Require Import Num FloatIO Integrators Sampler Faults SamplerCorr.
 Import ListNotations.
 Open Scope float_scope.
 """
@@ -81,8 +81,17 @@ class RunResult:
     pass
 
 
-def run_impl(cfg, workdir, fault=None, second_run=None, sampler_hook=None):
-    """Runs the real sampler; returns an object with everything observable."""
+class ManualClock:
+    def __init__(self):
+        self.now = 1000.0
+
+    def __call__(self):
+        return self.now
+
+
+def run_impl(cfg, workdir, sampler_hook=None, reuse=None, tag="run"):
+    """Runs the real sampler; returns an object with everything observable.
+    reuse = an earlier RunResult whose sampler object is used again (C08 reusability)."""
     import hmclab
     import hmclab.Samplers as S
     from .probes import FnTarget, FnMass, ScriptedRng, ExpProxy
@@ -101,8 +110,14 @@ def run_impl(cfg, workdir, fault=None, second_run=None, sampler_hook=None):
     r.tseed = tseed
     r.glog = glog
     r.target = target
-    snaps = []
+    snaps = reuse.snaps if reuse is not None else []
     r.snaps = snaps
+    r.ends = []
+    r.post_init = None
+    r.clock = ManualClock()
+    holder = reuse.holder if reuse is not None else {"r": r}
+    holder["r"] = r
+    r.holder = holder
     base = S.RWMH if cfg["kind"] == "rwmh" else S.HMC
 
     class Snap(base):
@@ -110,6 +125,10 @@ def run_impl(cfg, workdir, fault=None, second_run=None, sampler_hook=None):
             before = (col(self_.current_model), float(self_.current_x), self_.accepted_proposals)
             prop = col(self_.proposed_model)
             out = super()._evaluate_acceptance()
+            rr = holder["r"]
+            rr.ends.append(len(rr.glog))
+            if rr.cfg.get("timeout_after") is not None and len(rr.ends) == rr.cfg["timeout_after"] + 1:
+                rr.clock.now += 1e7
             snaps.append({"cur_before": before[0], "x_before": before[1], "acc_before": before[2],
                           "proposed": prop, "proposed_x": float(self_.proposed_x),
                           "cur_after": col(self_.current_model), "x_after": float(self_.current_x),
@@ -118,15 +137,25 @@ def run_impl(cfg, workdir, fault=None, second_run=None, sampler_hook=None):
                           "k": (float(self_.current_k), float(self_.proposed_k)) if cfg["kind"] == "hmc" else None})
             return out
 
+        def _init_sampler(self_, *a, **k):
+            res = super()._init_sampler(*a, **k)
+            if holder["r"].post_init:
+                holder["r"].post_init(self_)
+            return res
+
     Snap.__name__ = base.__name__
-    sampler = Snap(seed=1)
+    r.cfg = cfg
+    sampler = reuse.sampler if reuse is not None else Snap(seed=1)
     rng = ScriptedRng(normals=[list(z) for z in cfg["zs"]], uniforms=list(cfg["us"]),
                       factors=list(cfg.get("factors", [])))
     sampler.rng = rng
     r.rng = rng
     proxy = ExpProxy(glog=glog)
     r.proxy = proxy
-    fname = os.path.join(workdir, "run." + cfg["backend"])
+    fname = os.path.join(workdir, tag + "." + cfg["backend"])
+    for f_ in (fname, fname + ".pkl"):
+        if os.path.exists(f_):
+            os.remove(f_)
     r.filename = fname
     kwargs = dict(initial_model=m0.copy(), proposals=cfg["P"], online_thinning=cfg["t"],
                   overwrite_existing_file=True, autotuning=cfg["tune"], target_acceptance_rate=cfg["target"],
@@ -138,6 +167,7 @@ def run_impl(cfg, workdir, fault=None, second_run=None, sampler_hook=None):
             kwargs["stepsize"] = cfg["stepsize"]
     else:
         mass = FnMass(d, seed=cfg["mseed"], inv_diag=cfg["invdiag"], special_rate=cfg["special"] / 2, glog=glog)
+        mass.name = "scripted mass matrix"
         r.mass = mass
         kwargs.update(stepsize=cfg["stepsize"], randomize_stepsize=cfg["randomize"], amount_of_steps=cfg["steps"],
                       mass_matrix=mass, integrator=cfg["integrator"])
@@ -148,7 +178,10 @@ def run_impl(cfg, workdir, fault=None, second_run=None, sampler_hook=None):
     r.sampler = sampler
     r.exception = None
     old_np = S._numpy
+    old_time = S._time
     S._numpy = proxy
+    if "max_time" in cfg:
+        S._time = r.clock
     try:
         with contextlib.redirect_stdout(io.StringIO()), numpy.errstate(all="ignore"):
             try:
@@ -157,7 +190,9 @@ def run_impl(cfg, workdir, fault=None, second_run=None, sampler_hook=None):
                 r.exception = e
     finally:
         S._numpy = old_np
+        S._time = old_time
         numpy.seterr(all="warn")
+    r.cp = sampler.current_proposal
     r.acc = sampler.accepted_proposals
     r.cur = col(sampler.current_model)
     r.cur_x = float(sampler.current_x)
